@@ -142,9 +142,10 @@ def check_program(case):
     from kawin.GenericModel import Coupler
     out = Out()
     minf, maxf = case["minfrac"], case["maxfrac"]
+    fracs = case.get("fracs") or [[minf, maxf]] * len(case["durations"])      # step fractions may differ from one solve call to the next
     t0 = case["t0"]
     it = _iter(case["iterator"])
-    bound = int(math.ceil(1.0 / minf)) + 2
+    bound = int(math.ceil(1.0 / min(f[0] for f in fracs))) + 2
     cap = 4 * bound + 8
     log = []
     models = [build_model(s, log, i, t0, cap) for i, s in enumerate(case["models"])]
@@ -157,7 +158,11 @@ def check_program(case):
         top = models[0]
     out.label(case["iterator"], "models_%d" % len(models))
     degenerate = 0
-    for dur in case["durations"]:
+    if len(set(map(tuple, fracs))) > 1:
+        out.label("step_fractions_change_between_calls")
+    for icall, dur in enumerate(case["durations"]):
+        minf, maxf = fracs[icall]
+        bound = int(math.ceil(1.0 / minf)) + 2
         tstart = float(top.time[-1]) if coupled else models[0].time[-1]
         tf = tstart + dur
         for m in models:
@@ -298,14 +303,22 @@ def _program(draw):
         tend = sum(durations)
         if min(durations) * minf < 1e3 * np.spacing(tend):
             durations = [max(durations)]
-    return {"models": models, "minfrac": minf, "maxfrac": maxf, "durations": durations, "t0": t0,
+    case = {"models": models, "minfrac": minf, "maxfrac": maxf, "durations": durations, "t0": t0,
             "iterator": draw(st.sampled_from(["euler", "rk4"])), "force_coupler": draw(st.booleans()) if nm == 1 else True}
+    if len(durations) > 1 and draw(st.booleans()):
+        # other step fractions for the later calls (never a smaller minimum than the first call's, which the resolvability rule above used)
+        fr = [[minf, maxf]]
+        for _ in durations[1:]:
+            mn = draw(st.one_of(st.floats(minf, 0.5), st.sampled_from([minf, 0.5])))
+            fr.append([mn, draw(st.one_of(st.floats(mn, 1.0), st.just(1.0), st.just(mn)))])
+        case["fracs"] = fr
+    return case
 
 
 def clauses():
     return [
         Clause("programs", _program, check_program, quick=8000, thorough=200000,
                rule="generator: 1-3 data-described GenericModel subclasses (1-4 state entries scalar/1-D/2-D, 4 derivative rules, cycled step proposals from {0,<0,inf,-inf,NaN,1e-300,1e300, fraction of dt_total, 1e-12..1e8}, optional stop step, optional shape-changing postProcess), "
-                    "alone or inside Coupler, 1-3 consecutive solve calls of duration 10^[-6,6], t0 in {0,[0,1e4]}, minDtFrac in [1e-3,0.5], maxDtFrac in [minDtFrac,1], both iterators; "
+                    "alone or inside Coupler, 1-3 consecutive solve calls of duration 10^[-6,6] (the later calls with other step fractions in one case of two), t0 in {0,[0,1e4]}, minDtFrac in [1e-3,0.5], maxDtFrac in [minDtFrac,1], both iterators; "
                     "non-trivial: a degenerate proposal consumed and >=3 steps, or a coupling, or a stop request"),
     ]
